@@ -236,3 +236,13 @@ PROPS["C14"] = dict(
     trusted=["verif hooks VerifMarshalX / VerifUnmarshalX for the ten message types (tlcp/verif_hooks_c14.go, dtlcp/verif_hooks_c14.go)",
              "tk.NewTPair / tk.NewDPair + record splitting in the harness for the captured handshake messages"],
 )
+
+PROPS["C19"] = dict(
+    technique="Coq theorems over an executable discrete-event model of both DTLCP endpoints, the retransmission timers and the faulty network (Model/DSim.v) + exact trace correspondence: the real endpoints run on the deterministic virtual-time network under every enumerated fault script and must produce, event for event (datagrams with epoch / sequence number / kind of every record, network actions, deadline expiries, completion, application data, all with their virtual time), the trace the model computes",
+    level_text="(in progress)",
+    level_note="(in progress)",
+    code_names={1: "fault-free-handshake-needed-a-retransmission-timeout", 2: "endpoint-did-not-complete", 3: "completed-but-disagree", 4: "application-data-did-not-flow-both-ways",
+                5: "completed-later-than-the-retransmission-schedule-allows", 6: "application-data-before-completion", "hang": "hang"},
+    assumptions=["timeouts exceed the network latency (zero-latency virtual network)"],
+    trusted=["harness/internal/tk/vnet.go (virtual-time network and its event log)"],
+)
